@@ -332,14 +332,17 @@ fn model(ranges: &[(u64, usize)], steps: &[Step], budget: u32) -> Model {
     m
 }
 
-fn script_for(steps: &[Step], pieces: &[u8], chunked: bool) -> Script {
+/// `cut_drops_terminator`: under chunked transfer encoding a `Cut` step that falls at or behind the end of the body closes
+/// the connection without the terminating zero-length chunk ("cut exactly at the end": every byte has arrived, so for
+/// read_chunks it is no failure; read_at reads a response to its end and could not tell, so it is not used there).
+fn script_for(steps: &[Step], pieces: &[u8], chunked: bool, cut_drops_terminator: bool) -> Script {
     let mut rules = vec![];
     for (i, s) in steps.iter().enumerate() {
         let base = Action { pieces: pieces.iter().map(|p| *p as usize).collect(), chunked, ..Default::default() };
         let a = match s {
             Step::Ok => base,
             Step::Drop => Action { drop: true, ..base },
-            Step::Cut(c) => Action { cut_after: Some(*c as usize), ..base },
+            Step::Cut(c) => Action { cut_after: Some(*c as usize), omit_last_chunk: chunked && cut_drops_terminator, ..base },
             Step::Short(c) => Action { body: Body::Short(*c as usize), ..base },
         };
         rules.push((When::Nth(i), a));
@@ -384,7 +387,7 @@ fn run_hsession(c: &HSessionCase, rec: &mut CaseRec) -> Result<(), String> {
     // a consumer that drops a stream early leaves the number of requests already sent open: such sessions are fault-free
     // and only the delivered data is judged
     let steps: Vec<Step> = if has_partial { vec![] } else { c.steps.clone() };
-    let srv = http::Server::start(data.clone(), script_for(&steps, &c.pieces, c.chunked));
+    let srv = http::Server::start(data.clone(), script_for(&steps, &c.pieces, c.chunked, false));
     let url: reqwest::Url = srv.url().parse().unwrap();
     let mut expected: Vec<(u64, u64)> = vec![];
     let mut failed_ops = 0usize;
@@ -473,7 +476,7 @@ fn run_http(c: &HttpCase, rec: &mut CaseRec) -> Result<(), String> {
         return Ok(());
     }
     let m = model(&ranges, &c.steps, c.budget);
-    let srv = http::Server::start(data.clone(), script_for(&c.steps, &c.pieces, c.chunked));
+    let srv = http::Server::start(data.clone(), script_for(&c.steps, &c.pieces, c.chunked, true));
     let url: reqwest::Url = srv.url().parse().unwrap();
     let chunks: Vec<ChunkOffset> = ranges.iter().map(|(o, l)| ChunkOffset::new(*o, *l)).collect();
     let (n, err) = crate::util::block_on(async {
@@ -507,7 +510,7 @@ fn run_http(c: &HttpCase, rec: &mut CaseRec) -> Result<(), String> {
     if let Some((o, l)) = c.read_at {
         let o = idx(o, data.len());
         let l = (l as usize).clamp(1, data.len() - o);
-        let srv = http::Server::start(data.clone(), script_for(&c.steps, &c.pieces, c.chunked));
+        let srv = http::Server::start(data.clone(), script_for(&c.steps, &c.pieces, c.chunked, false));
         let url: reqwest::Url = srv.url().parse().unwrap();
         let r = crate::util::block_on(async {
             let mut reader = HttpReader::from_url(url).retries(c.budget).retry_delay(std::time::Duration::from_secs(0));
@@ -690,7 +693,7 @@ fn step_strategy() -> impl Strategy<Value = Step> {
     prop_oneof![
         3 => Just(Step::Ok),
         1 => Just(Step::Drop),
-        4 => prop_oneof![Just(0u16), 1u16..=8, 1u16..=300].prop_map(Step::Cut),
+        4 => prop_oneof![3 => Just(0u16), 3 => 1u16..=8, 3 => 1u16..=300, 1 => Just(u16::MAX)].prop_map(Step::Cut),
         1 => prop_oneof![Just(0u16), 1u16..=100].prop_map(Step::Short),
     ]
 }
@@ -715,7 +718,7 @@ impl Prop for C08 {
     fn meta(&self, _tier: Tier) -> Meta {
         Meta {
             level: "fault_enumeration",
-            rule: "local: data blob x range lists (placed, adjacent, overlapping, unordered; sizes >= 1) x read scripts (short reads of 1,2,3,7,random sizes, Pending at scripted polls) x early EOF, through IoReader::read_chunks / read_at on a fresh reader. session: ONE local reader, possibly consumed up to an arbitrary position before it was wrapped, used for 1-5 operations in a row (read_at, read_chunks read to the end, read_chunks dropped after k items), range lists starting at offset 0 with weight 1/7. hsession: ONE HttpReader for 2-4 operations in a row against one scripted server whose fault steps span the whole session (also an operation after a failed one). http: the same range lists through HttpReader::read_chunks / read_at against the scripted server with a per-request fault step (ok | accept-and-drop | cut after k body bytes (FIN) | clean early end after k bytes), retry budget 0..3, delay 0, body flushed in pieces or chunked transfer encoding. 'cuts': for bodies of <= 40 bytes EVERY cut offset 0..len of the first request x second-request step in {ok, cut 0, cut 1, drop} x budget 0..3. Oracle: items == requested slices in order; the Range log equals the resume model exactly (request i+1 starts at offset + bytes received, at most 1+budget requests per run of adjacent ranges); budget exhaustion or an early clean end gives Err after a correct prefix and then the end of the stream; read_at returns exactly size bytes or Err and re-requests the whole range. Non-trivial = a mid-body cut followed by a resume, budget exhaustion, clean early end, or a short read inside a chunk / early EOF; distinct by Blake2 of the canonical case.".into(),
+            rule: "local: data blob x range lists (placed, adjacent, overlapping, unordered; sizes >= 1) x read scripts (short reads of 1,2,3,7,random sizes, Pending at scripted polls) x early EOF, through IoReader::read_chunks / read_at on a fresh reader. session: ONE local reader, possibly consumed up to an arbitrary position before it was wrapped, used for 1-5 operations in a row (read_at, read_chunks read to the end, read_chunks dropped after k items), range lists starting at offset 0 with weight 1/7. hsession: ONE HttpReader for 2-4 operations in a row against one scripted server whose fault steps span the whole session (also an operation after a failed one). http: the same range lists through HttpReader::read_chunks / read_at against the scripted server with a per-request fault step (ok | accept-and-drop | cut after k body bytes (FIN; under chunked encoding a cut at or behind the end of the body means: all data chunks, no terminating chunk) | clean early end after k bytes), retry budget 0..3, delay 0, body flushed in pieces or chunked transfer encoding. 'cuts': for bodies of <= 40 bytes EVERY cut offset 0..len of the first request x second-request step in {ok, cut 0, cut 1, drop} x budget 0..3 x {one run, a second run behind a gap} x {Content-Length, chunked encoding}. Oracle: items == requested slices in order; the Range log equals the resume model exactly (request i+1 starts at offset + bytes received, at most 1+budget requests per run of adjacent ranges); budget exhaustion or an early clean end gives Err after a correct prefix and then the end of the stream; read_at returns exactly size bytes or Err and re-requests the whole range. Non-trivial = a mid-body cut followed by a resume, budget exhaustion, clean early end, or a short read inside a chunk / early EOF; distinct by Blake2 of the canonical case.".into(),
             assumptions: vec!["the server returns correct bytes whenever it answers (wrong data is C04's domain); zero-length ranges are outside the domain (no caller produces them)".into(), "true 'connection refused' is replaced by accept-and-drop".into()],
             ..Meta::default()
         }
@@ -732,15 +735,20 @@ impl Prop for C08 {
             'outer: for &len in &lens {
                 for cut in 0..=len {
                     for second in [Step::Ok, Step::Cut(0), Step::Cut(1), Step::Drop] {
-                        for budget in 0..=3u32 {
+                        for (budget, two_runs, chunked) in (0..=3u32).flat_map(|b| [(b, false, false), (b, false, true), (b, true, false), (b, true, true)]) {
                             index += 1;
                             if !cx.mine(index) {
                                 continue;
                             }
-                            // one run of three adjacent ranges covering `len` bytes
+                            // one run of three adjacent ranges covering `len` bytes; with `two_runs` a second run follows behind a
+                            // gap, so that the first request is not the last one of the stream
                             let a = (len / 3).max(1);
-                            let ranges = vec![RangeSpec { start: 6000, len: a, rel: 0 }, RangeSpec { start: 0, len: a, rel: 1 }, RangeSpec { start: 0, len: len.saturating_sub(2 * a).max(1), rel: 1 }];
-                            let case = HttpCase { data_len: 400, seed: len as u32, ranges, steps: vec![Step::Cut(cut), second.clone()], budget, pieces: vec![], chunked: false, read_at: None };
+                            let mut ranges = vec![RangeSpec { start: 6000, len: a, rel: 0 }, RangeSpec { start: 0, len: a, rel: 1 }, RangeSpec { start: 0, len: len.saturating_sub(2 * a).max(1), rel: 1 }];
+                            if two_runs {
+                                ranges.push(RangeSpec { start: 40_000, len: 5, rel: 0 });
+                                ranges.push(RangeSpec { start: 0, len: 3, rel: 1 });
+                            }
+                            let case = HttpCase { data_len: 400, seed: len as u32, ranges, steps: vec![Step::Cut(cut), second.clone()], budget, pieces: vec![], chunked, read_at: None };
                             count += 1;
                             let key = key_of(&case);
                             if !cx.eval_case("cuts", &case, key, |rec| run_http(&case, rec)) && cx.stats.failures.len() >= 3 {
